@@ -235,28 +235,15 @@ func (e *env) scanSets(ctx sdk.Context) []map[string]bool {
 	for i := range out {
 		out[i] = map[string]bool{}
 	}
-	for n, k := range e.keys {
-		if _, ok := k.(*storetypes.KVStoreKey); !ok || n == "acc" || n == "params" {
-			continue
-		}
-		it := ctx.KVStore(k).Iterator(nil, nil)
-		for ; it.Valid(); it.Next() {
-			key, v := it.Key(), it.Value()
-			if n == "bank" {
-				// coins of a tokenfactory denom are their holder's, not the denom creator's whose
-				// address is part of the denom's name
-				key, v = denomNameRe.ReplaceAll(key, []byte("factory/_/")), denomNameRe.ReplaceAll(v, []byte("factory/_/"))
-			}
-			for i := range nd {
-				if bytes.Contains(key, nd[i].raw) || bytes.Contains(key, nd[i].acc) || bytes.Contains(key, nd[i].val) ||
-					bytes.Contains(v, nd[i].raw) || bytes.Contains(v, nd[i].acc) || bytes.Contains(v, nd[i].val) {
-					h := sha256.Sum256(append(append([]byte(n+"|"), key...), v...))
-					out[i][n+":"+printable(key)+"="+hex.EncodeToString(h[:6])] = true
-				}
+	e.eachPair(ctx, func(n string, key, v []byte) {
+		for i := range nd {
+			if bytes.Contains(key, nd[i].raw) || bytes.Contains(key, nd[i].acc) || bytes.Contains(key, nd[i].val) ||
+				bytes.Contains(v, nd[i].raw) || bytes.Contains(v, nd[i].acc) || bytes.Contains(v, nd[i].val) {
+				h := sha256.Sum256(append(append([]byte(n+"|"), key...), v...))
+				out[i][n+":"+printable(key)+"="+hex.EncodeToString(h[:6])] = true
 			}
 		}
-		it.Close()
-	}
+	})
 	return out
 }
 
